@@ -863,7 +863,7 @@ func inFlowLayout(context *layoutContext, box_ bo.Box, index int, child_ Box, ne
 		// Between in-flow siblings
 		pageBreak = blockLevelPageBreak(lastInFlowChild, child_)
 		pageName_ := blockLevelPageName(lastInFlowChild, child_)
-		if pageName_ != "" || forcePageBreak(pageBreak, context) {
+		if !context.inMarginBox && (pageName_ != "" || forcePageBreak(pageBreak, context)) {
 			pageName, _ := child.PageValues()
 			nextPage = tree.PageBreak{Break: pageBreak, Page: pageName}
 			resumeAt = tree.ResumeStack{index: nil}
@@ -1288,6 +1288,9 @@ func avoidPageBreak(pageBreak string, context *layoutContext) bool {
 
 // Test whether we should force breaks.
 func forcePageBreak(pageBreak string, context *layoutContext) bool {
+	if context.inMarginBox {
+		return false
+	}
 	if context.inColumn {
 		return pageBreak == "page" || pageBreak == "left" || pageBreak == "right" || pageBreak == "recto" || pageBreak == "verso" || pageBreak == "column"
 	}
